@@ -146,7 +146,7 @@ def _simd_unit(isa, flag):
     return u, TS
 SIMD = {isa: _simd_unit(isa, fl) for isa, fl in (('sse2', '-msse2'), ('avx2', '-mavx2'))}
 def simd_isas(tier): return ['sse2'] if tier == 'quick' else ['sse2', 'avx2']
-def units(tier): return [(U, '-O1', True)] + [(SIMD[i][0], '-O1', True) for i in simd_isas(tier)] + [(UM, '-O0', False)] + [(u, '-O1', True) for (g, t, ql, u, cases) in _sweep()]
+def units(tier): return [(U, '-O1', True)] + [(SIMD[i][0], '-O1', True) for i in simd_isas(tier)] + [(UM, '-O0', False)] + [(u, '-O1', True) for (g, t, ql, u, cases) in _sweep()] + [(_X.UT, '-O1', True), (_X.UX, '-O1', True)]
 NATIVE = False
 
 def job(names):
@@ -211,12 +211,26 @@ def job_simd(isa, names):
             pre, btxt, known, unw = TS[n]
             S.check_fn(u, n, None, pre, ubsan=True, unwind=unw, known=known, bounds=btxt + '; UBSan-trap IR, GLM_FORCE_INTRINSICS ' + isa, timeout=S.cap(60, 240), validate=0)
     return run
+# ---- extension: matrix / quaternion / geometric / transform / gtx-helper functions (props/c20_ext.py); glm's own assert()s are assumed (documented preconditions)
+import props.c20_ext as _X
+def job_ext(unit, names, table):
+    def run(S):
+        for n in names:
+            if table is None: pre, btxt, unw = _X.TPRE.get(n), 'all argument values' + ('' if n not in _X.TPRE else ' within the documented domain of the operation (C15 table precondition)'), 16
+            else: pre, btxt, unw = table[n]
+            S.check_fn(unit, n, None, pre, ubsan=True, unwind=unw, bounds=btxt + '; glm assert()s assumed to hold; UBSan-trap IR', timeout=S.cap(60, 240), validate=0, assume_asserts=True,
+                       solver='portfolio' if n.startswith('gtxint') else 'z3', name='c20.%s.%s' % ('tab' if table is None else 'ext', n))
+    return run
+def jobs_ext(tier):
+    tab = list(_X.TAB); ext = sorted(_X.XT)
+    if tier == 'quick': ext = [n for n in ext if n not in ('decompose', 'gtxbit_i64')]
+    return [('tab_%d' % k, job_ext(_X.UT, tab[k::6], None)) for k in range(6)] + [('ext_%d' % k, job_ext(_X.UX, ext[k::6], _X.XT)) for k in range(6)]
 def jobs(tier):
     mem = sorted(UM.fns); sw = []
     for (g, t, ql, u, cases) in _sweep():
         for k in range(3):
             if cases[k::3]: sw.append(('sweep_%s_%s_%s_%d' % (g, t, ql, k), job_sweep(u, cases[k::3])))
-    return jobs_pure(tier) + sw + [('mem_%d' % k, job_mem(mem[k::4])) for k in range(4)] + [('simd_%s_%d' % (isa, k), job_simd(isa, sorted(SIMD[isa][1])[k::3])) for isa in simd_isas(tier) for k in range(3)]
+    return jobs_pure(tier) + jobs_ext(tier) + sw + [('mem_%d' % k, job_mem(mem[k::4])) for k in range(4)] + [('simd_%s_%d' % (isa, k), job_simd(isa, sorted(SIMD[isa][1])[k::3])) for isa in simd_isas(tier) for k in range(3)]
 def jobs_pure(tier):
     names = sorted(U.fns)
     if tier == 'quick': names = [n for n in names if not re.search(r'_(i8|u16|i16)$', n)]
